@@ -30,6 +30,13 @@ def replay(d):
     which = d['which']
     blank = object()
     fn = fff.fortran_float if which == 'float' else fff.fortran_int
+    if d.get('via_table'):
+        # the reader as handed to the file parsers by the library's own table
+        tfn = fff.fortran_read_function['e' if which == 'float' else 'd']
+        def fn(s, blank_value, tfn=tfn):
+            r = tfn(s)
+            if r is None and (which == 'float' or s.strip() == ''): return blank_value
+            return r
     try:
         got = fn(t, blank)
     except BaseException as ex:
